@@ -76,7 +76,7 @@ def strategy_(draw, tier):
     names.append(info.poskw + info.kwonly + _NAMES_EXTRA + info.posonly[:1])
   kinds = ['set_attr', 'set_attr', 'del_attr', 'set_item', 'del_item', 'set_slice', 'set_slice', 'del_slice',
            'add_tag', 'remove_tag', 'set_tags', 'clear_tags', 'tagged_value', 'assign', 'copy_with',
-           'materialize', 'update_callable', 'suspend_enter', 'suspend_enter', 'suspend_exit']
+           'materialize', 'update_callable', 'update_callable_bad', 'suspend_enter', 'suspend_enter', 'suspend_exit']
   ops = []
   for _ in range(draw(st.integers(1, 40 if tier == 'thorough' else 28))):
     c = draw(st.integers(0, 1))
@@ -176,6 +176,9 @@ def _do_op(cfgs, op, stack):
     code = fn.__vshape__.code
     other = getattr(sigs, ('Cls_' if fn.__name__.startswith('fn_') else 'fn_') + code)
     fdl.update_callable(cfg, other)
+  elif k == 'update_callable_bad':
+    # a callable without parameters: rejected (TypeError) whenever the configuration holds any argument
+    fdl.update_callable(cfg, sigs.fn_p0k0d0nqn)
   elif k == 'suspend_enter':
     cm = H.suspend_tracking()
     cm.__enter__()
@@ -203,7 +206,7 @@ def _in_thread(fn):
 
 def _state(cfg):
   return (dict(cfg.__arguments__),
-          {k: frozenset(v) for k, v in cfg.__argument_tags__.items()},
+          {k: frozenset(v) for k, v in cfg.__argument_tags__.items() if v},   # an empty set is no tag
           {k: list(v) for k, v in cfg.__argument_history__.items()})
 
 
@@ -239,7 +242,8 @@ def _check(case, out, stack):
     before = [_state(cfg) for cfg in cfgs]
     old_cfg = cfgs[c]
     depth_before = len(stack)
-    in_thread = bool(op.get('thread')) and not stack
+    # a fresh thread has its own tracking flag (enabled), whatever the main thread suspended
+    in_thread = bool(op.get('thread'))
     try:
       if in_thread:
         _in_thread(lambda: _do_op(cfgs, op, stack))
@@ -258,7 +262,7 @@ def _check(case, out, stack):
                 f'op {oi}: enabled={H.tracking_enabled()} with nesting depth {len(stack)}')
         return out
       continue
-    suspended = depth_before > 0
+    suspended = depth_before > 0 and not in_thread
     if k == 'copy_with' and raised is None and cfgs[c] is not old_cfg:
       # the copy carries the original's history plus the new entries; the original is untouched,
       # now and under every later edit of the copy
@@ -269,6 +273,11 @@ def _check(case, out, stack):
                 f'op {oi} {op}: history/arguments/tags of the copied-from configuration changed')
         return out
     after = [_state(cfg) for cfg in cfgs]
+    if raised is not None and after != before:
+      # an operation that was rejected must not leave entries (or changes) behind
+      what = 'history' if [a[:2] for a in after] == [b[:2] for b in before] else 'arguments-or-tags'
+      out.add('rejected-operation-changed-' + what, 'mismatch', '', feat, f'op {oi} {op}: {raised!r}'[:400])
+      return out
     if k.endswith('slice') or k.endswith('item'):
       va0 = {kk for kk in before[c][0] if isinstance(kk, int)}
       va1 = {kk for kk in after[c][0] if isinstance(kk, int)}
